@@ -33,13 +33,18 @@ Strip(e) == <<e[2], e[4], e[5], e[6], e[7], e[8]>>          \* tick, kind, chann
 \* A delta time of a Standard MIDI File is a variable-length quantity of at most four bytes: 2^28 - 1 ticks.  A piece whose
 \* whole length fits one delta time can always be written, so it must be; beyond that crd may refuse -- with a message, a
 \* non-zero status and no output (r.refused) -- and whatever it does write must still be right (a 5-byte delta, or ticks
-\* that wrapped round, are violations like any other).  T is crd's 960 here: a refused run has no header to read it from.
+\* that wrapped round, are violations like any other).
 MaxDelta == 268435455
-WithinLimit(d) == LET RECURSIVE F(_, _)
-                      F(i, acc) == IF i > Len(d) THEN TRUE
-                                   ELSE LET t == Lo(960, d[i]) + 1 IN t <= MaxDelta - acc /\ F(i + 1, acc + t)
-                  IN F(1, 0)
-RefusedOk(r, d) == r.refused /\ ~WithinLimit(d)
+WithinLimitT(T, d) == LET RECURSIVE F(_, _)
+                          F(i, acc) == IF i > Len(d) THEN TRUE
+                                       ELSE LET t == Lo(T, d[i]) + 1 IN t <= MaxDelta - acc /\ F(i + 1, acc + t)
+                      IN F(1, 0)
+\* T: the ticks per quarter note this binary declares (read off a small reference file by the driver; a refused run has no
+\* header of its own)
+WithinLimit(r, d) == WithinLimitT(IF r.refDivision > 0 THEN r.refDivision ELSE 960, d)
+\* a refusal is acceptable beyond the limit of the format -- or for a piece with a chord outside the MIDI range, about which
+\* no property says that it must be written
+RefusedOk(r, d) == r.refused /\ (~WithinLimit(r, d) \/ ~AllInRange(d))
 
 \* ------------------------------------------------------------------ C01
 C01Ok(r) == LET d == Eff(r.doc, r.flags)  cidx == ChordIdxOf(d)  ticks == StrikeTicks(r.ev) IN
@@ -107,7 +112,7 @@ VelocityOk(r, d) ==
     /\ \A j, k \in 1..Len(cidx) :
          /\ (dyn[j] = dyn[k] => vel[j] = vel[k])                                  \* a dynamic holds for all following notes
          /\ (DynRank(dyn[j]) > 0 /\ DynRank(dyn[k]) > DynRank(dyn[j])
-               => \A x \in vel[j], y \in vel[k] : y > x)                         \* louder never quieter
+               => \A x \in vel[j], y \in vel[k] : y >= x)                        \* louder never quieter
 \* the value of a tempo / meter / key setting in force at instance i: the last demand of that type at or before i
 InForceAt(dem, ty, i) == LET S == {x \in dem : x[2] = ty /\ x[1] <= i} IN (CHOOSE x \in S : \A y \in S : y[1] <= x[1])[3]
 \* a time signature travels as two bytes (numerator, exponent of the denominator): a numerator above 255, or a denominator
@@ -128,10 +133,10 @@ C07Written(r) ==
               \* key signature already in force (harmless; the property does not forbid it)
               /\ \A j \in 1..Len(ctl) :
                     \/ \E dm \in dem : ctl[j][2] = st[dm[1]] /\ Satisfies(ctl[j], dm)
+                    \/ (ctl[j][6] \in textual /\ ctl[j][2] = 0)
                     \/ /\ ctl[j][6] \in {mTEMPO, mMETER, mKEYSIG} /\ ctl[j][1] = 0
                        /\ \E i \in 1..Len(d) : st[i] = ctl[j][2] /\ Satisfies(ctl[j], <<i, ctl[j][6], InForceAt(dem, ctl[j][6], i)>>)
-         \* texts, lyrics and markers are never repeated
-         /\ Cardinality({j \in 1..Len(ctl) : ctl[j][6] \in textual}) = Cardinality({x \in dem : x[2] \in textual})
+         \* (a text, lyric or marker event that no instance asked for is tolerated at tick 0 only: a writer's own label)
          /\ VelocityOk(r, d)
 \* a tempo travels as 24 bits of microseconds per quarter note: 60,000,000 / bpm must be between 1 and 2^24 - 1, that is
 \* 4 <= bpm <= 60,000,000; outside, no event carries the written tempo (a slower one would come out as 0 = infinitely fast)
